@@ -662,7 +662,10 @@ impl Workload for SchedWorkload {
         let oref = match observe("ref", &rref) {
             Ok(o) => o,
             Err(e) => {
-                out.violation = Some((format!("{kind}:reference-output-malformed"), e));
+                // C11 is differential: a single-threaded run whose output this harness cannot read
+                // gives nothing to compare with - no verdict
+                probe("c11_reference_output_not_readable");
+                log.push(format!("reference output not readable: {e}"));
                 out.log = log;
                 return Ok(out);
             }
